@@ -28,7 +28,7 @@ for q in sorted(fns):
     except Exception as e:
         print("skip", q, type(e).__name__, e)
         continue
-    if s is not None and (s["total"] or s["refuses"] or s["guards"] or s["defaults"]):
+    if s is not None and (s["total"] or s["refuses"] or s["guards"] or s["defaults"] or s["option_defaults"] or s["index_statements"]):
         out[q] = s
 (V / "mdsa" / "pinned_summaries.json").write_text(json.dumps(out, indent=1, sort_keys=True))
 print(len(out), "functions;", sum(1 for s in out.values() if s["total"]), "total,", sum(len(s["refuses"]) for s in out.values()), "refusal terms,", sum(len(s["guards"]) for s in out.values()), "guard calls,", sum(len(s["defaults"]) for s in out.values()), "defaults")
